@@ -140,11 +140,13 @@ class State:
         self.fields = {}         # (object key, attr) -> Val   for attributes written on this path
         self.pc_taint = FALSE    # taint of the control context (implicit flows)
         self.trace = []          # human-readable notes (calls to primitives ...) for evidence samples
+        self.qfacts = []         # quantified facts (see arrays.py), instantiated per obligation
 
     def fork(self):
         s = State()
         s.env, s.path, s.ghost, s.fields = dict(self.env), list(self.path), dict(self.ghost), dict(self.fields)
         s.pc_taint, s.trace = self.pc_taint, list(self.trace)
+        s.qfacts = list(self.qfacts)
         return s
 
     def assume(self, c):
@@ -199,7 +201,10 @@ class Engine:
         Ob = self.from_solver.Obligation
         full = '%s/%s' % (self.qual, name)
         n = sum(1 for o in self.obligations if o.meta.get('base') == full)
-        ob = Ob(full if n == 0 else '%s~path%d' % (full, n + 1), st.path, goal, function=self.qual, kind=kind, meta=dict(meta or {}, base=full))
+        path = list(st.path)
+        if getattr(st, 'qfacts', None) and hasattr(self, 'instantiate'):
+            path += self.instantiate(st, goal)
+        ob = Ob(full if n == 0 else '%s~path%d' % (full, n + 1), path, goal, function=self.qual, kind=kind, meta=dict(meta or {}, base=full))
         self.obligations.append(ob)
 
     def note(self, msg):
@@ -225,6 +230,10 @@ class Engine:
             return z3.Const('global<%s>' % v.name, V)
         if isinstance(v, (FuncV, Bound, DictV)):
             return self.fresh('closure', V)
+        if hasattr(v, '_at') and hasattr(self, 'arr_to_V'):
+            return self.arr_to_V(v)
+        if getattr(v, 'is_dictsym', False):
+            return v.t
         raise Unsupported('to_V(%r)' % (v,))
 
     def fresh_like(self, v, base, taint=None):
@@ -233,6 +242,13 @@ class Engine:
             return Num(self.fresh(base, I if v.is_int else R), npy=v.npy, taint=taint, ghost=v.ghost)
         if isinstance(v, BoolV):
             return BoolV(self.fresh(base, B), taint=taint)
+        if hasattr(v, '_at'):
+            from . import arrays
+            self.counter += 1
+            probe = v.at(self, State(), z3.Int('probe!%d' % self.counter)) if True else None
+            kind = 'real' if isinstance(probe, Num) else 'obj'
+            a = arrays.sym_array(self, '%s!%d' % (base, self.counter), elem=kind, taint=taint, np=v.np)
+            return a
         cls = v.cls if isinstance(v, Obj) else ('list' if isinstance(v, Tup) and v.kind == 'list' else
                                                 'dict' if isinstance(v, DictV) else None)
         return Obj(self.fresh(base, V), cls=cls, taint=taint, ghost=getattr(v, 'ghost', None))
@@ -255,6 +271,12 @@ class Engine:
             return Const(ty[4:])
         if ty.startswith('obj'):
             return Obj(z3.Const(base, V), cls=ty[4:] or None, taint=taint)
+        if ty.startswith('dict:'):
+            from . import arrays
+            return arrays.DictSym(self, base, val=ty[5:], taint=taint)
+        if ty.startswith('arr:') or ty.startswith('seq:'):
+            from . import arrays
+            return arrays.sym_array(self, base, elem=ty[4:], taint=taint, np=ty.startswith('arr:'))
         raise Unsupported('type %r' % ty)
 
     def truth(self, st, v, node=None):
@@ -276,15 +298,22 @@ class Engine:
         raise Unsupported('truth(%r)' % (v,))
 
     # ---- spec expressions (same evaluator, spec mode: no obligations, extra names)
-    def spec(self, text, st, extra=None):
+    def spec(self, text, st, extra=None, mode='assume'):
+        """mode 'assume': forall(...) becomes a quantified fact of `st`; mode 'prove': it is Skolemised.
+        forall may only occur in positive positions (conjunct / right-hand side of implies)."""
         st2 = st.fork()
         if extra:
             st2.env.update(extra)
         self._spec_mode = getattr(self, '_spec_mode', 0) + 1
+        old_pol = getattr(self, '_spec_polarity', 'assume')
+        self._spec_polarity = mode
         try:
             v = self.ev(st2, ast.parse(text, mode='eval').body)
         finally:
             self._spec_mode -= 1
+            self._spec_polarity = old_pol
+        if mode == 'assume' and len(st2.qfacts) > len(st.qfacts):
+            st.qfacts = list(st2.qfacts)
         extra_facts = st2.path[len(st.path):]
         t = self.truth(st2, v)
         # facts introduced while evaluating the spec (ground axioms of opaque terms) are sound to assume
@@ -328,7 +357,7 @@ class Engine:
         extra = dict(self.entry_names())
         extra['result'] = val
         for name, text in self.c.get('ensures', {}).items():
-            t, facts = self.spec(text, st, extra)
+            t, facts = self.spec(text, st, extra, mode='prove')
             s2 = st.fork()
             for f in facts:
                 s2.assume(f)
@@ -528,7 +557,7 @@ class Engine:
                                     'discard', 'clear', 'insert', 'setdefault', 'combine'):
                 r = root(n.func.value)
                 if r:
-                    add(r)
+                    add('?' + r)        # mutated through a method: only a local variable can be meant
             for t in tg:
                 for x in ast.walk(t):
                     if isinstance(x, ast.Name) and isinstance(x.ctx, ast.Store):
@@ -563,6 +592,8 @@ class Engine:
         return no, self.c.get('loops', {}).get(no, {})
 
     def havoc_mods(self, st, mods, taints, tag):
+        mods = [m for m in mods if not m.startswith('?')] + \
+               [m[1:] for m in mods if m.startswith('?') and m[1:] in st.env and m[1:] not in mods]
         for m in mods:
             if m in st.env:
                 old = st.env[m]
@@ -585,10 +616,10 @@ class Engine:
             if g in st.ghost and not L.get('ghost_frame', {}).get(g):
                 st.ghost[g] = self.fresh('%s_%s' % (g, tag), st.ghost[g].sort())
 
-    def inv_terms(self, st, L, extra):
+    def inv_terms(self, st, L, extra, mode='assume'):
         out = []
         for inv in L.get('invariant', []):
-            t, facts = self.spec(inv, st, extra)
+            t, facts = self.spec(inv, st, extra, mode=mode)
             out.append((inv, t, facts))
         return out
 
@@ -597,13 +628,15 @@ class Engine:
         setup_iter(state, k) binds the loop target for iteration index k (or None for while loops)."""
         no, L = self.loop_contract(node)
         mods = self.loop_mods(node)
+        mods = [m for m in mods if not m.startswith('?')] + \
+               [m[1:] for m in mods if m.startswith('?') and m[1:] in st.env and m[1:] not in mods]
         k = self.fresh('k%d' % no, I)
         # 1. invariant holds on entry
         lo = L.get('_lo', z3.IntVal(0))
         s0 = st.fork()
         if setup_iter:
             setup_iter(s0, lo, entry=True)
-        for inv, t, facts in self.inv_terms(s0, L, {}):
+        for inv, t, facts in self.inv_terms(s0, L, {}, mode='prove'):
             s1 = s0.fork()
             for f in facts:
                 s1.assume(f)
@@ -625,6 +658,7 @@ class Engine:
                 body.assume(t)
             if g is not None:
                 body.assume(g)
+            ghost_at_body_start = dict(body.ghost)
             mark = len(self.obligations)
             nmark = len(self.canaries)
             self.canaries.append(('loop%d/body' % no, list(body.path)))
@@ -649,7 +683,7 @@ class Engine:
             e2 = e.fork()
             if setup_iter:
                 setup_iter(e2, k + 1, entry=True)
-            for inv, t, facts in self.inv_terms(e2, L, {}):
+            for inv, t, facts in self.inv_terms(e2, L, {}, mode='prove'):
                 e3 = e2.fork()
                 for f in facts:
                     e3.assume(f)
@@ -657,6 +691,11 @@ class Engine:
         # 3. after the loop
         after = st.fork()
         self.havoc_mods(after, mods, taints, 'ex%d' % no)
+        if 'ghost_modifies' not in L:
+            # only ghost variables that some path through the body actually changed need to be forgotten
+            changed = [g for g in st.ghost if any(not z3.eq(e.ghost.get(g, ghost_at_body_start[g]), ghost_at_body_start[g])
+                                                  for e in ends + breaks if g in ghost_at_body_start)]
+            L = dict(L, ghost_modifies=changed)
         self.havoc_ghost(after, L, 'ex%d' % no)
         after.fields = {kk: vv for kk, vv in after.fields.items() if kk[1] not in L.get('fields_modified', ())}
         kx = after_guard_fn(after)
@@ -720,19 +759,23 @@ class Engine:
                             o.env[node.target.id] = Num(self.fresh('loopvar', I))
             return outs
         # symbolic sequence: arbitrary element
+        arr = itv if hasattr(itv, '_at') else None
         if isinstance(itv, Tup):
             itv_t = self.to_V(itv)
             elems = itv.items
         else:
             itv_t = self.to_V(itv)
             elems = None
-        n = self.uf('len', V, I)(itv_t)
+        n = arr.n if arr is not None else self.uf('len', V, I)(itv_t)
         def setup(s, k, entry, exit_=False):
-            if exit_ or (entry and not z3.is_expr(k)):
+            s.env['_it'] = Num(k if z3.is_expr(k) else z3.IntVal(k))     # ghost: number of completed iterations
+            if exit_ or entry:
                 return
             item = None
             if self.hooks and hasattr(self.hooks, 'loop_item'):
                 item = self.hooks.loop_item(self, s, itv, k, node)
+            if (item is None or item is NotImplemented) and arr is not None:
+                item = arr.at(self, s, k if z3.is_expr(k) else z3.IntVal(k))
             if item is None or item is NotImplemented:
                 if elems is not None and elems and all(isinstance(x, Num) for x in elems):
                     item = Num(self.fresh('elem', R), taint=t_or(*[x.taint for x in elems]))
@@ -820,6 +863,8 @@ class Engine:
         if isinstance(e.op, ast.USub):
             if isinstance(v, Num):
                 return Num(-v.t, npy=v.npy, taint=v.taint, ghost=v.ghost)
+            if hasattr(v, '_at'):
+                return self.arr_unary(st, 'neg', v)
             return Obj(self.uf('neg', V, V)(self.to_V(v)), taint=v.taint, ghost=getattr(v, 'ghost', None))
         if isinstance(e.op, ast.Invert):
             return Obj(self.uf('invert', V, V)(self.to_V(v)), taint=v.taint)
@@ -896,6 +941,10 @@ class Engine:
             else:
                 t = self.to_V(l) == self.to_V(r)
             return t if isinstance(op, ast.Is) else z3.Not(t)
+        for x, y in ((l, r), (r, l)):
+            # floats are mathematical reals in this encoding: a number is never equal to +-inf
+            if isinstance(x, Num) and isinstance(y, Ref) and y.name in ('np.inf', 'math.inf', 'numpy.inf') and isinstance(op, (ast.Eq, ast.NotEq)):
+                return FALSE if isinstance(op, ast.Eq) else TRUE
         if isinstance(l, Num) and isinstance(r, Num):
             a, b = (l.t, r.t) if l.is_int == r.is_int else (l.real(), r.real())
             f = {ast.Lt: lambda: a < b, ast.LtE: lambda: a <= b, ast.Gt: lambda: a > b, ast.GtE: lambda: a >= b,
@@ -938,6 +987,10 @@ class Engine:
         if self.hooks and hasattr(self.hooks, 'binop'):
             x = self.hooks.binop(self, st, op, l, r, node)
             if x is not NotImplemented and x is not None:
+                return x
+        if hasattr(self, 'arr_binop'):
+            x = self.arr_binop(st, op, l, r, node)
+            if x is not NotImplemented:
                 return x
         tt = t_or(l.taint, r.taint)
         if isinstance(l, Num) and isinstance(r, Num):
@@ -1004,6 +1057,10 @@ class Engine:
             x = self.hooks.attr(self, st, o, name, node)
             if x is not NotImplemented and x is not None:
                 return x
+        if hasattr(self, 'arr_getattr'):
+            x = self.arr_getattr(st, o, name, node)
+            if x is not NotImplemented:
+                return x
         if isinstance(o, Obj):
             key = (str(o.t), name)
             if key in st.fields:
@@ -1047,6 +1104,10 @@ class Engine:
         if self.hooks and hasattr(self.hooks, 'getitem'):
             x = self.hooks.getitem(self, st, o, k, e)
             if x is not NotImplemented and x is not None:
+                return x
+        if hasattr(self, 'arr_getitem'):
+            x = self.arr_getitem(st, o, k, e)
+            if x is not NotImplemented:
                 return x
         if isinstance(o, Tup) and isinstance(k, Num) and z3.is_int_value(k.t):
             i = k.t.as_long()
@@ -1117,12 +1178,20 @@ class Engine:
         return o
 
     def ev_ListComp(self, st, e):
+        if hasattr(self, 'arr_comp'):
+            x = self.arr_comp(st, e, 'list')
+            if x is not NotImplemented:
+                return x
         return self.comp(st, e, [e.elt], 'list')
 
     def ev_SetComp(self, st, e):
         return self.comp(st, e, [e.elt], 'set')
 
     def ev_GeneratorExp(self, st, e):
+        if hasattr(self, 'arr_comp'):
+            x = self.arr_comp(st, e, 'list')
+            if x is not NotImplemented:
+                return x
         return self.comp(st, e, [e.elt], 'list')
 
     def ev_DictComp(self, st, e):
@@ -1163,6 +1232,10 @@ class Engine:
         # local functions and lambdas are inlined (they have no contract of their own)
         if isinstance(fv, FuncV):
             return self.inline(st, fv, args, kw, node)
+        if hasattr(self, 'arr_call'):
+            x = self.arr_call(st, mname, recv, args, kw, node)
+            if x is not NotImplemented:
+                return x
         x = self.builtin(st, mname, recv, args, kw, node)
         if x is not NotImplemented:
             return x
@@ -1170,9 +1243,25 @@ class Engine:
         key = mname if recv is None else '.' + mname
         if key in self.registry:
             return self.call_contract(st, key, self.registry[key], recv, args, kw, node)
-        # havoc
         allv = ([recv] if recv is not None else []) + list(args) + list(kw.values())
         tt = t_or(*[v.taint for v in allv])
+        # callee declared pure (deterministic, side-effect free) in the contract: typed uninterpreted function
+        pure = self.c.get('pure', {})
+        if key in pure:
+            rty = pure[key]
+            argv = [self.to_V(v) for v in ([recv] if recv is not None else []) + list(args)]
+            for kname in sorted(kw):
+                argv.append(self.uf('kw_' + kname, V, V)(self.to_V(kw[kname])))
+            rs = {'real': R, 'npreal': R, 'int': I, 'bool': B}.get(rty, V)
+            term = self.uf('pure_%s_%d' % (key, len(argv)), *([V] * len(argv) + [rs]))(*argv)
+            if rs == R:
+                return Num(term, npy=(rty == 'npreal'), taint=tt)
+            if rs == I:
+                return Num(term, taint=tt)
+            if rs == B:
+                return BoolV(term, taint=tt)
+            return Obj(term, cls=rty[4:] or None, taint=tt)
+        # havoc
         self.note('havoc: %s' % (mname if recv is None else '<obj>.' + mname))
         return Obj(self.fresh('havoc_' + mname.split('.')[-1], V), taint=tt)
 
@@ -1243,7 +1332,7 @@ class Engine:
                 bound[nm] = self.ev(st, ast.parse(dflt, mode='eval').body)
         pre_terms = []
         for r in cc.get('requires', []):
-            t, facts = self.spec(r, st, bound)
+            t, facts = self.spec(r, st, bound, mode='prove')
             if self.in_spec():
                 pre_terms.append(t)          # inside a spec the callee's postcondition is only known under its precondition
                 continue
@@ -1297,6 +1386,23 @@ class Engine:
             if name == 'ghost' and len(args) == 1 and isinstance(args[0], Const):
                 g = st.ghost[args[0].v]
                 return Num(g) if g.sort() != B else BoolV(g)
+            if name == 'same' and len(args) == 2:
+                a, b = args
+                if isinstance(a, Num) and isinstance(b, Num):
+                    return BoolV(a.real() == b.real())
+                if isinstance(a, BoolV) and isinstance(b, BoolV):
+                    return BoolV(a.t == b.t)
+                if isinstance(a, Bound):
+                    a = self.bound_as_value(st, a)
+                if isinstance(b, Bound):
+                    b = self.bound_as_value(st, b)
+                return BoolV(self.to_V(a) == self.to_V(b))
+            if name == 'isinstance' and len(args) == 2 and isinstance(args[1], Ref) and args[1].name == 'dict':
+                a = args[0]
+                if isinstance(a, DictV) or getattr(a, 'is_dictsym', False):
+                    return BoolV(TRUE)
+                if isinstance(a, (Num, Tup, BoolV, Const)) or hasattr(a, '_at'):
+                    return BoolV(FALSE)
             if name == 'public' and len(args) == 1:
                 return BoolV(z3.Not(args[0].taint))
             if name == 'range':
